@@ -9,7 +9,7 @@ statement before it, or a new authority-carrying handler appears without one, `a
 -/
 namespace FxVerif.Props.C16
 open FxVerif.Gen.C16 FxVerif.Model.C16
-open FxVerif.Gen (C16Sem.helpers C16Sem.impls C16Sem.types C16Sem.services C16Sem.registrations C16Sem.msgInfos C16Sem.updateStoreProg)
+open FxVerif.Gen (C16Sem.proposalExec C16Sem.helpers C16Sem.impls C16Sem.types C16Sem.services C16Sem.registrations C16Sem.msgInfos C16Sem.updateStoreProg)
 
 /-- obligation over the regenerated table: every handler is guarded, or forwards to a guarded one -/
 theorem all_handlers_guarded : handlers.all (fun h => shapeOk handlers h.shape) = true := by decide
@@ -172,7 +172,7 @@ theorem routed_unauthorized_rejected {σ : Type} (r : Registration) (hr : r ∈ 
     | some c =>
       refine ⟨c, impl, rfl, by simpa [hr'] using hres, rfl, ?_⟩
       intro env auth W payloadOk s hrel
-      unfold routed
+      unfold routed routedStage
       split
       · rfl
       · split
@@ -223,7 +223,7 @@ theorem routed_only_governance_string {σ : Type} (r : Registration) (hr : r ∈
         · exact absurd h h2'
       · apply hrej
         simpa [relK] using hf
-    · unfold routed
+    · unfold routed routedStage
       have : (accAddress env.cfg auth).isNone = true := by
         cases hh : accAddress env.cfg auth with
         | none => rfl
@@ -361,6 +361,18 @@ theorem update_store_handler_unauthorized (known : List String) (gov auth : Str)
 /-- a proposal (several messages on one branch, written back only if all succeed) is all-or-nothing -/
 theorem proposal_atomic (fs : List (Stores → Res × Stores)) (S : Stores) (h : (runProposal fs S).1 = .err) :
     (runProposal fs S).2 = S := viaCache_err _ S h
+
+/-- the end-blocker's execution of a passed proposal, AS REGENERATED from x/gov/abci.go (handlers on the cache context,
+`break` on the first error, `writeCache()` only under `err == nil`), is the all-or-nothing `runProposal` — for all
+message lists and stores -/
+theorem proposal_exec_is_atomic (fs : List (Stores → Res × Stores)) (S : Stores) :
+    runProposalWith C16Sem.proposalExec fs S = runProposal fs S := by
+  have hp : C16Sem.proposalExec = ⟨true, true, true⟩ := by decide
+  rw [hp]
+  unfold runProposalWith runProposal viaCache
+  simp only [loopMsgs_break fs S .ok rfl]
+  cases h : runMsgs fs S with
+  | mk r X => cases r <;> simp
 
 theorem proposal_ok_is_sequence (fs : List (Stores → Res × Stores)) (S : Stores) (h : (runProposal fs S).1 = .ok) :
     runProposal fs S = runMsgs fs S := viaCache_ok _ S h
